@@ -25,7 +25,11 @@ from .models import (
     WSMsgType,
 )
 
-ALLOWED_CLOSE_CODES: Final[set[int]] = {int(i) for i in WSCloseCode}
+# 1006 is reserved for local use and must never appear in a Close frame
+# https://datatracker.ietf.org/doc/html/rfc6455#section-7.4.1
+ALLOWED_CLOSE_CODES: Final[set[int]] = {
+    int(i) for i in WSCloseCode if i is not WSCloseCode.ABNORMAL_CLOSURE
+}
 
 # States for the reader, used to parse the WebSocket frame
 # integer values are used so they can be cythonized
